@@ -597,6 +597,39 @@ func TestC03Retransmission(t *testing.T) {
 						return
 					}
 				}
+				// exhausted pool: the harness takes every identifier that is still free (as many deliveries in flight would); a
+				// further QoS > 0 message may wait or be given up on, but nothing may go out under an identifier that is taken or
+				// that is no identifier at all. The production range (65535 identifiers) on a sixteenth of the paths (cost).
+				if p.SmallPool || i%16 == 0 {
+					pool := wasp.VerifWriterPool(w.Node(1).Writer)
+					taken := map[int32]bool{}
+					for k := 0; k < 70000; k++ {
+						id := pool.Get()
+						if id < 1 {
+							break
+						}
+						taken[id] = true
+					}
+					poolMax := int32(65535)
+					if p.SmallPool {
+						poolMax = 3
+					}
+					pub.Publish("q2/exhausted", "px", 1, false, 11)
+					w.Idle(1500 * time.Millisecond)
+					for _, c := range append(append([]*Client{}, subs...), mix, q3) {
+						for _, x := range c.Publishes() {
+							if string(x.Topic) != "q2/exhausted" || x.Header.Qos == 0 {
+								continue
+							}
+							if taken[x.MessageId] || x.MessageId < 1 || x.MessageId > poolMax {
+								viol("c03-identifier-from-exhausted-pool", "with every identifier of the pool (1..%d) taken, a message was sent to %s at QoS %d under identifier %d, which %s", poolMax, c.Name, x.Header.Qos, x.MessageId,
+									map[bool]string{true: "is in use", false: "the pool cannot have handed out"}[taken[x.MessageId]])
+								return
+							}
+						}
+					}
+					rep.Extra["paths_with_exhausted_pool_probe"] = asInt(rep.Extra["paths_with_exhausted_pool_probe"]) + 1
+				}
 				key := fmt.Sprintf("%v/%v", p.SmallPool, p.Events)
 				if sawRetransmit {
 					MarkNontrivial(key)
